@@ -2,6 +2,7 @@ package main
 
 import (
 	"fmt"
+	"go/constant"
 	"go/token"
 	"go/types"
 	"strings"
@@ -68,8 +69,151 @@ func evalByteCond(v ssa.Value, cv ssa.Value, c int64, depth int) (bool, bool) {
 		if x.Value != nil {
 			return x.Value.String() == "true", true
 		}
+	case *ssa.Call:
+		// a pure module predicate on the byte (needsEscape(c)): evaluate its body for this value
+		callee := x.Call.StaticCallee()
+		if callee == nil || x.Call.IsInvoke() || len(callee.Params) != 1 || len(x.Call.Args) != 1 || len(callee.Blocks) == 0 {
+			return false, false
+		}
+		arg, ok := evalByteInt(x.Call.Args[0], cv, c)
+		if !ok {
+			return false, false
+		}
+		res, ok := interpPure(callee, arg, depth+1)
+		return res != 0, ok
 	}
 	return false, false
+}
+
+// interpPure evaluates a side-effect-free single-parameter integer/boolean function for one concrete
+// argument by walking its CFG (comparisons, arithmetic, phis, conversions, nested pure predicates only).
+// ok is false as soon as anything else is met: the caller then reports the decision as not evaluable.
+func interpPure(fn *ssa.Function, arg int64, depth int) (int64, bool) {
+	if depth > 6 {
+		return 0, false
+	}
+	par := fn.Params[0]
+	env := map[ssa.Value]int64{}
+	var eval func(v ssa.Value) (int64, bool)
+	eval = func(v ssa.Value) (int64, bool) {
+		if v == ssa.Value(par) {
+			return arg, true
+		}
+		if k, ok := env[v]; ok {
+			return k, true
+		}
+		switch x := v.(type) {
+		case *ssa.Const:
+			if x.Value == nil {
+				return 0, false
+			}
+			if x.Value.Kind() == constant.Bool {
+				if constant.BoolVal(x.Value) {
+					return 1, true
+				}
+				return 0, true
+			}
+			if k, ok := constInt(x); ok {
+				return k, true
+			}
+		case *ssa.Convert:
+			return eval(x.X)
+		case *ssa.ChangeType:
+			return eval(x.X)
+		case *ssa.UnOp:
+			if x.Op == token.NOT {
+				k, ok := eval(x.X)
+				return 1 - k, ok
+			}
+		case *ssa.BinOp:
+			a, ok1 := eval(x.X)
+			b, ok2 := eval(x.Y)
+			if !ok1 || !ok2 {
+				return 0, false
+			}
+			bl := func(t bool) (int64, bool) {
+				if t {
+					return 1, true
+				}
+				return 0, true
+			}
+			switch x.Op {
+			case token.LSS:
+				return bl(a < b)
+			case token.LEQ:
+				return bl(a <= b)
+			case token.GTR:
+				return bl(a > b)
+			case token.GEQ:
+				return bl(a >= b)
+			case token.EQL:
+				return bl(a == b)
+			case token.NEQ:
+				return bl(a != b)
+			case token.ADD:
+				return a + b, true
+			case token.SUB:
+				return a - b, true
+			case token.AND:
+				return a & b, true
+			case token.OR:
+				return a | b, true
+			}
+		case *ssa.Call:
+			callee := x.Call.StaticCallee()
+			if callee != nil && !x.Call.IsInvoke() && len(callee.Params) == 1 && len(x.Call.Args) == 1 && len(callee.Blocks) > 0 {
+				if a, ok := eval(x.Call.Args[0]); ok {
+					return interpPure(callee, a, depth+1)
+				}
+			}
+		}
+		return 0, false
+	}
+	b := fn.Blocks[0]
+	var prev *ssa.BasicBlock
+	for steps := 0; steps < 256; steps++ {
+		for _, in := range b.Instrs {
+			switch x := in.(type) {
+			case *ssa.Phi:
+				for i, pb := range b.Preds {
+					if pb == prev {
+						k, ok := eval(x.Edges[i])
+						if !ok {
+							return 0, false
+						}
+						env[x] = k
+					}
+				}
+			case *ssa.BinOp, *ssa.UnOp, *ssa.Convert, *ssa.ChangeType, *ssa.DebugRef:
+			case *ssa.Call:
+				// evaluated on demand; must be a pure nested predicate
+				if _, ok := eval(x); !ok {
+					return 0, false
+				}
+			case *ssa.If:
+				k, ok := eval(x.Cond)
+				if !ok {
+					return 0, false
+				}
+				prev = b
+				if k != 0 {
+					b = b.Succs[0]
+				} else {
+					b = b.Succs[1]
+				}
+			case *ssa.Jump:
+				prev, b = b, b.Succs[0]
+			case *ssa.Return:
+				if len(x.Results) != 1 {
+					return 0, false
+				}
+				return eval(x.Results[0])
+			default:
+				return 0, false
+			}
+		}
+	}
+	return 0, false
 }
 
 func evalByteInt(v ssa.Value, cv ssa.Value, c int64) (int64, bool) {
